@@ -16,6 +16,13 @@
 (* that the set of initial states stays small), dumps it, parses it.       *)
 (* Property C18 on the model: ParseLine(DumpRow(row)) = row.               *)
 (*                                                                         *)
+(* The transcription of the repository ("repo") does not satisfy it: its   *)
+(* closing-quote test t[-2] != escapechar takes the closing quote of a     *)
+(* string ending with the escape symbol for an escaped quote.  TLC does    *)
+(* not stop there: Collect prints every failing row, Characterization      *)
+(* states exactly which rows fail, and the variant with the proposed fix   *)
+(* ("parity") is checked against the plain RoundTrip.                      *)
+(*                                                                         *)
 (* A field is [k |-> "s", v |-> text]  a str value, or                     *)
 (*            [k |-> "t", v |-> text]  a value written with str() and not  *)
 (*                                     quoted (int, float, bool; None is   *)
@@ -164,6 +171,13 @@ Unescape(i, q, e) ==
     THEN Replace(Replace(SubSeq(i, 2, Len(i) - 1), <<e, e>>, <<e>>), <<e, q>>, <<q>>)
     ELSE i
 
+(* the two replacements in the other order (a selftest mutant): proved below to
+   be equivalent on everything dump() writes *)
+UnescapeSwapped(i, q, e) ==
+    IF Len(i) > 0 /\ i[1] = q /\ Last(i) = q
+    THEN Replace(Replace(SubSeq(i, 2, Len(i) - 1), <<e, q>>, <<q>>), <<e, e>>, <<e>>)
+    ELSE i
+
 (* parse_line:
        parts = line.split(separator)
        if len(parts) != columns_len:
@@ -248,6 +262,15 @@ Characterization ==
 
 (* the separator splitting alone is inverted by the join (no field lost) *)
 SplitJoin == stage = "dumped" => Join(SplitSep(line, sep), sep) = line
+
+(* escaping alone is inverted by unescaping, field by field, in either order of
+   the two replacements *)
+EscapeInverse ==
+    stage = "dumped" =>
+        \A j \in 1..Len(row) :
+            LET d == DumpField(row[j], Quote, esc) IN
+            /\ Unescape(d, Quote, esc) = row[j].v
+            /\ UnescapeSwapped(d, Quote, esc) = row[j].v
 
 (* collect instead of stop: always TRUE *)
 Collect ==
